@@ -5,6 +5,7 @@ from c01 import TRUSTED
 from vlib import b64, unb64
 
 CORR = "corr:comments (Model/Comments.v vs engine.Changelog.ChangedIntervals + cleanupFilePos, through the verif hook trace)"
+CORR_AD = "corr:astdiff (Model/AstDiff.v vs internal/astdiff + internal/diff, on the snapshots the verif hook renders at every step)"
 NOPOS = -(1 << 40)
 
 PATCHES = {
@@ -156,6 +157,17 @@ def model_steps(r):
     return "(comments (cs %s) (lines) (steps %s))" % (tab, st), steps, cs
 
 
+def merge_ivs(ivs):
+    """non-empty intervals, sorted and merged (what an interval set holds)"""
+    out = []
+    for a, b in sorted((a, b) for a, b in ivs if a < b):
+        if out and a <= out[-1][1]:
+            out[-1] = (out[-1][0], max(out[-1][1], b))
+        else:
+            out.append((a, b))
+    return out
+
+
 def align(I, O):
     di = [d["digest"] for d in I["decls"]]
     do = [d["digest"] for d in O["decls"]]
@@ -214,7 +226,7 @@ def main():
             if b"//" in data or b"/*" in data:
                 for pname, p in c["patches"][:1]:
                     cases.append(("golden:" + c["name"], p.decode("utf-8", "replace"), data.decode("utf-8", "replace")))
-    req = {"cases": [{"patches": [{"name": "p.patch", "src": b64(p.encode())}], "file": {"name": "a.go", "src": b64(f.encode())}} for _, p, f in cases]}
+    req = {"snapshots": True, "cases": [{"patches": [{"name": "p.patch", "src": b64(p.encode())}], "file": {"name": "a.go", "src": b64(f.encode())}} for _, p, f in cases]}
     res = vlib.harness("comments", req)["results"]
     mcases, midx = [], []
     for i, r in enumerate(res):
@@ -224,6 +236,13 @@ def main():
         if mc:
             mcases.append(mc); midx.append(i)
     models = dict(zip(midx, vlib.model(mcases)))
+    # the astdiff model on the snapshots of every successful step
+    ad_cases, ad_idx = [], []
+    for i, r in enumerate(res):
+        for si, s in enumerate(r.get("steps") or []):
+            if s.get("snap_from") and s.get("snap_to"):
+                ad_cases.append("(astdiff (from %s) (to %s))" % (s["snap_from"], s["snap_to"])); ad_idx.append((i, si))
+    ad_models = dict(zip(ad_idx, vlib.model(ad_cases))) if ad_cases else {}
     cli_sample = []
     for i, ((pn, p, f), r) in enumerate(zip(cases, res)):
         rep = {"case": "c17#%d" % i, "kind": pn, "patch": p, "file": f, "gopatch_output": unb64(r["out"]).decode("utf-8", "replace") if r.get("out") else None}
@@ -266,6 +285,34 @@ def main():
                     gone_m = [c for c in before if c not in left]; gone_i = [c for c in before if c not in after]
                     rep2 = dict(rep, step=k, intervals=iiv, removed_by_model=gone_m, removed_by_gopatch=gone_i)
                     ck.mismatch("step %d: the cleanup removed %s, the model removes %s" % (k, gone_i[:3], gone_m[:3]), rep2, CORR); trace_ok = False; break
+        # ---- (1b) astdiff: the Changed calls, the snapshot handed to the next step and what the changelog keeps of the calls
+        for si, s in enumerate(r.get("steps") or []):
+            am = ad_models.get((i, si))
+            if am is None:
+                continue
+            if am[0] != "result" or am[1] == "fuel":
+                ck.mismatch("astdiff model error %r" % (am[:2],), dict(rep, step=si), CORR_AD); trace_ok = False; break
+            calls = [[int(a), int(b)] for a, b in vlib.field(am[1:], "calls")]
+            if calls != (s["changed_calls"] or []):
+                ck.mismatch("step %d: astdiff reports the spans %s, the model %s" % (si, (s["changed_calls"] or [])[:6], calls[:6]),
+                            dict(rep, step=si, model_calls=calls, gopatch_calls=s["changed_calls"]), CORR_AD); trace_ok = False; break
+            if vlib.sx(vlib.field(am[1:], "to")[0]) != vlib.sx(vlib.parse_sx(s["snap_to"])):
+                ck.mismatch("step %d: the snapshot astdiff hands to the next change (comments carried over to unchanged nodes) differs from the model's" % si,
+                            dict(rep, step=si), CORR_AD); trace_ok = False; break
+            plus_m = merge_ivs([(int(a), int(b)) for a, b in vlib.field(am[1:], "plus")])
+            plus_i = merge_ivs([tuple(x) for x in (s.get("changed") or [])])
+            if plus_m != plus_i:
+                ck.mismatch("step %d: the changelog keeps %s of astdiff's calls, the model (calls that do not start at NoPos) %s" % (si, plus_i[:5], plus_m[:5]),
+                            dict(rep, step=si, calls=calls), CORR_AD); trace_ok = False; break
+            rp = vlib.field(am[1:], "report")
+            if rp[0] == "none":
+                ck.tally("astdiff_theorem", "no declaration list found"); continue
+            ck.tally("astdiff_theorem", "side conditions of C17_identical_declaration hold" if rp[0] == "1" else "side conditions not met (a nested comment beyond its declaration, rewritten positions)")
+            for j, att, clr in rp[1]:
+                ck.tally("identical_declarations", "comments attached=%s, all spans clear of them=%s, side conditions=%s" % (att, clr, rp[0]))
+                if rp[0] == "1" and att == "1" and clr != "1":
+                    ck.mismatch("step %d: declaration #%s is paired as identical, the side conditions of C17_identical_declaration_is_clear_of_every_span "
+                                "hold, yet a span reaches one of its comments: the executable model contradicts its theorem" % (si, j), dict(rep, step=si), CORR_AD)
         # ---- (2) the hypothesis of C17_untouched_general: nothing reported as changed reaches into an untouched declaration or the header
         I0, O = r["in"], r["out_owned"]
         al = align(I0, O)
